@@ -18,7 +18,7 @@ def run(ck):
         raise vlib.InfraError("driver failed rc=%s %s" % (d["rc"], d["err"][-1500:]))
     ck.trace("hierarchy-calls", "Trace_Hier", "Trace.cfg", t,
              what="cellToParent/ChildrenSize/CenterChild/Children on pentagon disks, seams and random cells at all 16 "
-                  "resolutions, error-contract resolutions, partition membership", nchunks=32)
+                  "resolutions, error-contract resolutions, partition membership", nchunks=16)
     ck.ev.assumptions += ["TLC 1.8 / JVM", "ndjson encodings (4-word indexes, base-16807 limbs for int64)",
                           "centre-coincidence clause: angle and tolerance max(2e-12, 4e-15/cos lat) are computed by the "
                           "driver in double arithmetic (numeric projection, DESIGN 6)",
